@@ -272,7 +272,18 @@ func (g *FullGen) atom(d int) *Node {
 			}
 			op := cmpS[r.Intn(len(cmpS))]
 			if op == "~=" {
-				b = Str(rePool[r.Intn(len(rePool))])
+				switch r.Intn(4) {
+				case 0:
+					if a.K == KValue {
+						b = Key()
+					} else {
+						b = Value()
+					}
+				case 1:
+					b = Bin("+", Str("^"), Key())
+				default:
+					b = Str(rePool[r.Intn(len(rePool))])
+				}
 			}
 			return Bin(op, a, b)
 		case 2, 3:
@@ -523,6 +534,39 @@ func (g *FullGen) whereClause(depth int) *Node {
 		return Bool(true)
 	case 1:
 		return Bin("^=", Key(), Str(g.pick([]string{"k", "k0", "a", ""})))
+	case 2, 3:
+		// a key-pinning conjunct (every access path) with a selective residual predicate
+		lits := append([]string{"k", "a", "k0"}, g.KeyLits...)
+		var pin *Node
+		switch r.Intn(5) {
+		case 0:
+			pin = Bin("^=", Key(), Str(g.pick([]string{"k", "k0", "a", "", "k1"})))
+		case 1:
+			a, b := g.pick(lits), g.pick(lits)
+			if a > b {
+				a, b = b, a
+			}
+			pin = And(Bin(">=", Key(), Str(a)), Bin("<=", Key(), Str(b+"z")))
+		case 2:
+			n := r.Range(2, 6)
+			items := make([]*Node, n)
+			for i := range items {
+				items[i] = Str(g.pick(lits))
+			}
+			pin = In(Key(), items...)
+		case 3:
+			a, b := g.pick(lits), g.pick(lits)
+			if a == b {
+				b = a + "z"
+			}
+			if a > b {
+				a, b = b, a
+			}
+			pin = Between(Key(), Str(a), Str(b))
+		default:
+			pin = Bin(">", Key(), Str(g.pick(lits)))
+		}
+		return And(pin, g.B(depth-1, true))
 	}
 	return g.B(depth, false)
 }
